@@ -188,6 +188,9 @@ def judge_freevars(case, ans):
     tree = fsem.tree_from_json(case['tree'], k)
     if d['status'] == 'panic':
         return True, 'panic: ' + ans[6:120]
+    if d['status'] == 'timeout':
+        # the evaluation did not come back (a fixed point that does not converge): nothing about free variables
+        return None, 'no answer: ' + ans[:100]
     if d['status'] != 'ok':
         return True, 'well-formed formula rejected: ' + ans[:100]
     free = [bool(x) for x in fsem.free_atoms(tree, k)]
